@@ -366,6 +366,9 @@ class Component(BaseObject):
             layer.removeObserver(self, "Layer.GlyphDeleted")
 
     def baseGlyphNameChangedNotificationCallback(self, notification):
+        if self.dispatcher is None:
+            # detached while this notification was being delivered
+            return
         newName = notification.data["newValue"]
         layer = self.layer
         notBaseGlyph = layer[newName]
@@ -374,6 +377,9 @@ class Component(BaseObject):
         self.postNotification("Component.BaseGlyphDataChanged")
 
     def layerGlyphNameChangedNotificationCallback(self, notification):
+        if self.dispatcher is None:
+            # detached while this notification was being delivered
+            return
         newName = notification.data["newValue"]
         baseGlyph = self.baseGlyph
         if newName != baseGlyph:
@@ -383,6 +389,9 @@ class Component(BaseObject):
         self.postNotification("Component.BaseGlyphDataChanged")
 
     def layerGlyphWillBeDeletedNotificationCallback(self, notification):
+        if self.dispatcher is None:
+            # detached while this notification was being delivered
+            return
         name = notification.data["name"]
         if name != self.baseGlyph:
             return
@@ -390,6 +399,9 @@ class Component(BaseObject):
         self._beginLayerObservations()
 
     def layerGlyphDeletedNotificationCallback(self, notification):
+        if self.dispatcher is None:
+            # detached while this notification was being delivered
+            return
         # the base glyph is gone now (it was still there when
         # Layer.GlyphWillBeDeleted was posted)
         name = notification.data["name"]
@@ -398,6 +410,9 @@ class Component(BaseObject):
         self.postNotification("Component.BaseGlyphDataChanged")
 
     def layerBaseGlyphReplacedNotificationCallback(self, notification):
+        if self.dispatcher is None:
+            # detached while this notification was being delivered
+            return
         # while the base glyph is being observed: another glyph object has
         # been filed under its name (newGlyph or insertGlyph over the name,
         # or a glyph renamed to it). observe that one from now on.
@@ -412,6 +427,9 @@ class Component(BaseObject):
         self.postNotification("Component.BaseGlyphDataChanged")
 
     def layerGlyphAddedNotificationCallback(self, notification):
+        if self.dispatcher is None:
+            # detached while this notification was being delivered
+            return
         name = notification.data["name"]
         if name != self.baseGlyph:
             return
@@ -420,6 +438,9 @@ class Component(BaseObject):
         self.postNotification("Component.BaseGlyphDataChanged")
 
     def baseGlyphDataChangedNotificationCallback(self, notification):
+        if self.dispatcher is None:
+            # detached while this notification was being delivered
+            return
         self.postNotification("Component.BaseGlyphDataChanged")
 
     # -----------------------------
